@@ -129,6 +129,7 @@ const (
 	carrierAudit = iota
 	carrierSyslog
 	carrierJournald
+	carrierRepeated // rsyslog's RepeatedMsgReduction: `message repeated N times: [ <the line>]` (c15 part only)
 )
 
 func line(r record, seq, carrier int) string {
@@ -226,7 +227,9 @@ func read(text string, carrier int, filter string) (res logs.AppArmorLogs, perr 
 	return logs.New(rd, filter), ""
 }
 
-func carrierName(c int) string { return []string{"audit", "syslog", "journald"}[c] }
+func carrierName(c int) string {
+	return []string{"audit", "syslog", "journald", "syslog-message-repeated"}[c]
+}
 
 var onlyTags string
 
@@ -469,6 +472,8 @@ func c15(shard, of int) int {
 				return "type=AVC msg=audit(" + ts + "): " + body
 			case carrierSyslog:
 				return "Oct  1 12:00:01 host kernel: [  101.456789] audit: type=1400 audit(" + ts + "): " + body
+			case carrierRepeated:
+				return "Oct  1 12:00:01 host kernel: message repeated 3 times: [ [  101.456789] audit: type=1400 audit(" + ts + "): " + body + "]"
 			default:
 				b, _ := json.Marshal(map[string]string{"MESSAGE": "audit: type=1400 audit(" + ts + "): " + body, "_TRANSPORT": "kernel"})
 				return string(b)
@@ -546,9 +551,9 @@ func c15(shard, of int) int {
 			}
 		}
 	}
-	for carrier = carrierAudit; carrier <= carrierJournald; carrier++ {
+	for carrier = carrierAudit; carrier <= carrierRepeated; carrier++ {
 	for ni, name := range names {
-		if (ni*3+carrier)%of != shard {
+		if (ni*4+carrier)%of != shard {
 			continue
 		}
 		for _, comm := range comms {
